@@ -34,6 +34,8 @@ def cfg_for(gated: set) -> pg.GenCfg:
     cfg = pg.GenCfg()
     cfg.shared_member_names = True
     cfg.twins = True
+    cfg.private_name_clashes = True
+    cfg.private_bases = True
     cfg.reexport_forms = tuple(f for f in forms if f"reexport:{f}" not in gated)
     return cfg
 
